@@ -50,6 +50,29 @@ def query_points(rk, a, b, n):
     return [tuple(a[d] + (b[d] - a[d]) * (0.03 + 0.94 * H(rk, "q", k, d)) for d in range(len(a))) for k in range(n)]
 
 
+def query_sequence(inst, P, interp, clone=True):
+    """The observable answers of an instance, asked in a fixed order on a deep copy (queries may evaluate the integrand at
+    further points, which must not leak into the run that continues): interpolation, re-evaluation of the final
+    refinement from scratch, interpolation again, reported result, point count. Compared bit for bit between the
+    saved and the restored instance - state that is dropped on save and rebuilt lazily after restore shows here."""
+    import copy
+    # deepcopy goes through __getstate__ like pickling does, so the saved side is asked directly (it is dropped
+    # afterwards) and the restored side is a second restore from the same bytes
+    c = copy.deepcopy(inst) if clone else inst
+    out = []
+    hexes = lambda arr: [float(x).hex() for x in np.asarray(arr, dtype=float).ravel()]
+    with seams.quiet():
+        if interp:
+            out.append(["interpolation"] + hexes(c(P)))
+        r, _ = c.evaluate_final_combi()
+        out.append(["final_combi"] + hexes(r))
+        if interp:
+            out.append(["interpolation_after_final_combi"] + hexes(c(P)))
+        out.append(["result"] + hexes(c.operation.get_result()))
+        out.append(["points", int(c.get_total_num_points())])
+    return out
+
+
 def compare(ctx, sig, twin, got, what):
     for key in ("structure", "scheme", "lmax", "npoints", "distinct_evals"):
         if twin[key] != got[key]:
@@ -105,8 +128,8 @@ class C14(Check):
                 cfg["automatic"] = False
             if cfg["lmin"] >= 2:
                 cfg["version"] = 0
-            if r.random() < 0.25:      # other local grid families that run in this strategy here
-                cfg["grid"] = r.choice(ES.LOCAL_GRIDS[1:])
+            if r.random() < 0.3:       # other local grid families that run in this strategy here
+                cfg["grid"] = r.choice(ES.LOCAL_GRIDS[1:] + ["LagrangeGrid"])
                 cfg["boundary"] = True
                 cfg["single_dim"] = False
         cfg.update(strategy=strategy, use_epoch=False, max_points=10 ** 6, estimator=r.choice(["keyed", "keyed", "real"]), clock_jumps=r.random() < 0.3)
@@ -189,11 +212,11 @@ class C14(Check):
         P = query_points(rk, a, b, 5)
         # __call__ raises for extend-split without boundary points (known finding of C07) and is not supported on grids
         # without points on the area boundaries (Gauss-Legendre); the restored-equals-saved clause then compares result and counts
-        interp = not (st == "extend_split" and (not cfg["boundary"] or cfg.get("grid", "TrapezoidalGrid") != "TrapezoidalGrid"))
+        interp = not (st == "extend_split" and (not cfg["boundary"] or cfg.get("grid", "TrapezoidalGrid") not in ("TrapezoidalGrid", "LagrangeGrid")))
         # queries run on deep copies: __call__ may evaluate the integrand at further points (it does for extend-split
         # version 2), which moves the point count and hence the stop of the continued run - the statement is about
         # stop / save / restore / continue, not about queries in between
-        call = (lambda inst: np.asarray(copy.deepcopy(inst)(P))) if interp else (lambda inst: np.zeros(1))
+        call = lambda inst: query_sequence(inst, P, interp, clone=False)
         if kind == "continue":
             pass
         elif kind == "two_stage":
@@ -207,9 +230,9 @@ class C14(Check):
             if path not in seams.FS.files or not seams.FS.files[path]:
                 ctx.violate("save_writes_file", sig, "%s: save_to_file reported success but no bytes are stored" % what)
             if kind != "save_continue":
-                before_vals = call(sa).copy()
                 before_res = np.array(sa.operation.get_result(), dtype=float).copy()
                 before_n = int(sa.get_total_num_points())
+                before_vals = call(sa)      # asked on the live saved instance, which is dropped right afterwards
                 data = seams.FS.files[path]
                 # crash: only the bytes survive
                 sim.sa = sim.op = sim.f = sim.err = None
@@ -219,8 +242,9 @@ class C14(Check):
                 if kind == "child_restore":
                     ctx.fault("restore_in_fresh_interpreter")
                     got, vals = self.child(cfg, rk, data, final, st, interp)
-                    if interp and [[float(x).hex() for x in row] for row in before_vals] != vals:
-                        ctx.violate("restored_equals_saved", sig, "%s: interpolation of the instance restored in a fresh interpreter differs from the saved one" % what)
+                    if before_vals != vals:
+                        ctx.violate("restored_equals_saved", sig, "%s: answers of the instance restored in a fresh interpreter differ from the saved one: %s vs %s" % (
+                            what, [q[0] for q, w in zip(vals, before_vals) if q != w], [w[0] for q, w in zip(vals, before_vals) if q != w]))
                     ctx.probe("restored_equals_saved")
                     compare(ctx, sig, twin, got, what)
                     ctx.state((st, k, kind, json.dumps(got["structure"])[:2000]))
@@ -228,11 +252,16 @@ class C14(Check):
                 import sparseSpACE.StandardCombi as SC
                 with seams.quiet():
                     sa2 = SC.StandardCombi.restore_from_file(path)
-                after_vals = call(sa2)
-                if not (np.array_equal(before_vals, after_vals) and np.array_equal(before_res, np.array(sa2.operation.get_result(), dtype=float))
+                with seams.quiet():
+                    sa3 = SC.StandardCombi.restore_from_file(path)
+                after_vals = call(sa3)
+                del sa3
+                if not (before_vals == after_vals and np.array_equal(before_res, np.array(sa2.operation.get_result(), dtype=float))
                         and before_n == int(sa2.get_total_num_points())):
-                    ctx.violate("restored_equals_saved", sig, "%s: restored instance differs from the saved one: interpolation %s vs %s, result %s vs %s, points %d vs %d" % (
-                        what, after_vals.tolist(), before_vals.tolist(), list(sa2.operation.get_result()), before_res.tolist(), int(sa2.get_total_num_points()), before_n))
+                    diff = [q[0] for q, w in zip(after_vals, before_vals) if q != w]
+                    ctx.violate("restored_equals_saved", sig, "%s: restored instance differs from the saved one in %s: %s vs %s, result %s vs %s, points %d vs %d" % (
+                        what, diff, [q for q in after_vals if q[0] in diff][:2], [q for q in before_vals if q[0] in diff][:2],
+                        list(sa2.operation.get_result()), before_res.tolist(), int(sa2.get_total_num_points()), before_n))
                 ctx.probe("restored_equals_saved")
                 sim.sa, sim.op, sim.f, sim.err = sa2, sa2.operation, sa2.operation.f, sa2.errorEstimator
         else:   # write faults: the live instance must be untouched, failure must be loud
@@ -275,7 +304,7 @@ class C14(Check):
         ctx.state((st, k, kind, json.dumps(got["structure"])[:2000]))
 
     def child(self, cfg, rk, data, final, st, interp=True):
-        req = {"bytes": base64.b64encode(data).decode(), "rk": rk, "final": final, "strategy": st, "a": cfg["a"], "b": cfg["b"], "npts": 5 if interp else 0}
+        req = {"bytes": base64.b64encode(data).decode(), "rk": rk, "final": final, "strategy": st, "a": cfg["a"], "b": cfg["b"], "npts": 5, "interp": bool(interp)}
         env = dict(os.environ)
         p = subprocess.run([sys.executable, "-m", "simcore.child_restore"], input=json.dumps(req) + "\n", capture_output=True, text=True,
                            cwd=os.path.dirname(os.path.dirname(os.path.abspath(__file__))), env=env, timeout=240)
